@@ -13,5 +13,6 @@ CONSTANTS
   Overflow = FALSE
   MaxLen = 80
   LateRounds = 0
+  W2Window = {}
 SPECIFICATION GSpec
 INVARIANTS EmitInv
